@@ -487,7 +487,10 @@ def split_cases(lines):
 
 
 def workdir(pid):
-    d = os.path.join(BUILD, "work", pid)
+    """Per property and seed, so that the case files a replay points at survive later runs."""
+    seed = os.environ.get("VERIF_SEED", "1")
+    tier = os.environ.get("VERIF_TIER_EFFECTIVE", "quick")
+    d = os.path.join(BUILD, "work", "%s-%s-%s" % (pid, tier, seed))
     os.makedirs(d, exist_ok=True)
     return d
 
